@@ -213,12 +213,20 @@ fn consume_each(s: &mut Session, e: u32, rng: &mut Rng, max: usize) {
     }
     let mut okset = vec![];
     let deep = rng.chance(30, 100);
+    // a commit that fails with a resource limit says nothing about the language: such tokens are not reported as tried
+    let mut limited: Vec<u32> = vec![];
     for &t in &tried {
         let mut c = if deep { s.eng[&e].0.deep_clone() } else { s.eng[&e].0.clone() };
-        if c.consume_token(t).is_ok() {
-            okset.push(t);
+        match c.consume_token(t) {
+            Ok(_) => okset.push(t),
+            Err(err) => {
+                if vh::err_class(&err.to_string()) == "limit" {
+                    limited.push(t);
+                }
+            }
         }
     }
+    tried.retain(|t| !limited.contains(t));
     let v = json!({"ev":"ConsumeEach","e":e,"tried":u32s_json(&tried),"okset":u32s_json(&okset),
         "deep": deep as u32});
     s.tr.ev(v);
@@ -315,6 +323,13 @@ fn run_episode(ep: &Value, epno: usize, cache: &mut HashMap<String, Vocab>, tr: 
                     s.ff_tokens(1);
                 }
                 "inval" => s.invalidate(1),
+                // ["try", 0, [ids]] : try_consume_tokens
+                "try" => {
+                    let seq: Vec<u32> = op[2].as_array().map(|a| a.iter().filter_map(|x| x.as_u64()).map(|x| x as u32).collect()).unwrap_or_default();
+                    if let Some(n) = s.try_consume(1, &seq) {
+                        hist.extend_from_slice(&seq[..n]);
+                    }
+                }
                 "validate_all" => {
                     s.validate_all(1);
                 }
